@@ -499,6 +499,18 @@ func main() {
 			default:
 				filters = []bson.D{d(p, d(c.Op, a)), d(p, d(c.Op, a, "$exists", true))}
 			}
+			if strings.HasPrefix(c.Op, "$bits") && c.Arg == "binary" && c.Path == "top" {
+				// binary values of every small length against positions, numeric and binary masks that end before, at and
+				// after their last byte
+				for _, bin := range [][]byte{{}, {0xff}, {0x01, 0x80}, {0, 0, 0, 0, 0, 0, 0, 0, 1}} {
+					for _, operand := range []interface{}{bson.A{int32(0)}, bson.A{int32(7)}, bson.A{int32(8)}, bson.A{int32(15), int32(16)}, bson.A{int32(63), int32(64), int32(71), int32(72)},
+						int32(255), int32(256), int64(65535), int64(1) << 40, primitive.Binary{Data: []byte{}}, primitive.Binary{Data: []byte{1}}, primitive.Binary{Data: []byte{0, 1}},
+						primitive.Binary{Data: []byte{0, 0, 1}}, primitive.Binary{Data: []byte{0, 0, 0, 0, 0, 0, 0, 0, 0, 1}}} {
+						fd, fq := d("f", primitive.Binary{Data: bin}), d("f", d(c.Op, operand))
+						guard("mongokit.Match (binary field)", c, func() { mongokit.Match(clone(fd), clone(fq)) })
+					}
+				}
+			}
 			for _, q := range filters {
 				guard("mongokit.Match", c, func() { mongokit.Match(clone(dc), clone(q)) })
 				guard("mongokit.Extract", c, func() { mongokit.Extract(clone(q)) })
